@@ -15,7 +15,7 @@ RULE = ("Hypothesis histories (<= 10 operations) of addfilter/updatefilter/repla
         "no marker prefix inside, no surrounding white space) and default or custom '#'-initial marker prefixes; oracle: "
         "fs2 = from_parser_result(parse(str(fs))) has the same names in order, enabled flags, descriptions (absent == empty) and "
         "requires; every filter's content renders to a script that parses to the same tree; str of a second reload equals "
-        "str(fs2). Non-trivial = >= 2 filters or a disabled filter or a description; distinct by history.")
+        "str(fs2). Plus an exhaustive grid: every set of 1-4 filters, each plain / described / disabled / both, under every marker-prefix pair. Non-trivial = >= 2 filters or a disabled filter or a description; distinct by history.")
 
 NAME_ALPHA = ["a", "B", "1", " ", "é", "€", "#", ":", '"', "\\", "{", "}", ";", "/*", "😀", "-", ".", "(", "[", ","]
 PREFIXES = [None, ("# rule:", "# about:"), ("#N=", "#D="), ("# Filter: ", "# Description: "), ("#>", "#<"),
@@ -40,11 +40,11 @@ def names(draw, prefixes):
 def history(draw):
     prefixes = draw(st.sampled_from(PREFIXES))
     pf = prefixes or ("# Filter: ", "# Description: ")
-    pool = draw(st.lists(names(pf), min_size=2, max_size=4, unique=True))
+    pool = draw(st.lists(names(pf), min_size=3, max_size=5, unique=True))
     defs = [draw(F.definition(F.MILD)) for _ in range(3)]
     ops = []
-    for _ in range(draw(st.integers(1, 10))):
-        k = draw(st.sampled_from(["add", "add", "add", "update", "replace", "remove", "enable", "disable", "disable", "move"]))
+    for _ in range(draw(st.integers(1, 12))):
+        k = draw(st.sampled_from(["add", "add", "add", "add", "update", "replace", "replace", "replace", "remove", "enable", "disable", "disable", "move"]))
         op = {"op": k, "name": draw(st.sampled_from(pool))}
         if k in ("add", "update", "replace"):
             op["def"] = draw(st.integers(0, 2))
@@ -52,7 +52,7 @@ def history(draw):
             op["newname"] = draw(st.sampled_from(pool))
         if k == "replace":
             op["newname"] = draw(st.sampled_from(pool + [None]))
-            op["description"] = draw(st.one_of(st.none(), names(pf)))
+            op["description"] = draw(st.one_of(st.none(), names(pf), names(pf), names(pf)))
         if k == "move":
             op["dir"] = draw(st.sampled_from(["up", "down"]))
         ops.append(op)
@@ -177,6 +177,49 @@ def worker(arg):
     return col
 
 
+GRID_DEFS = [
+    {"conditions": [("Subject", ":is", "a")], "actions": [("fileinto", "A")], "matchtype": "anyof"},
+    {"conditions": [("exists", "X-A"), ("size", ":over", "10k")], "actions": [("redirect", ":copy", "b@example.org")], "matchtype": "allof"},
+]
+GRID_NAMES = ["first", "second \u00e9", "third #3", "4: fourth"]
+
+
+def grid_histories():
+    """Every set of 1-4 filters in which each filter is plain / described /
+    disabled / described and disabled, under every marker-prefix pair."""
+    import itertools
+    for prefixes in PREFIXES:
+        for n in (1, 2, 3, 4):
+            for states in itertools.product(range(4), repeat=n):
+                ops = []
+                for i, stt in enumerate(states):
+                    ops.append({"op": "add", "name": GRID_NAMES[i], "def": i % 2})
+                    if stt & 1:
+                        ops.append({"op": "replace", "name": GRID_NAMES[i], "newname": None, "def": i % 2, "description": "about %d \u20ac" % i})
+                    if stt & 2:
+                        ops.append({"op": "disable", "name": GRID_NAMES[i]})
+                yield {"prefixes": prefixes, "defs": GRID_DEFS, "ops": ops}
+
+
+def grid_worker(arg):
+    k, n = arg
+    col = core.Collector()
+    for i, h in enumerate(grid_histories()):
+        if i % n != k:
+            continue
+        fails, fs = check(h)
+        col.case(key=None, nontrivial=len(h["ops"]) >= 2, classes=["grid"], sample={"grid": True, "prefixes": h["prefixes"], "ops": h["ops"]} if i % 977 == 0 else None)
+        for b, det in fails:
+            det = dict(det)
+            det["ops"] = h["ops"]
+            col.fail(b, {"history": h}, det, size=len(h["ops"]))
+    return col
+
+
+def any_worker(arg):
+    return grid_worker(arg[1]) if arg[0] == "grid" else worker(arg[1])
+
+
 def replay(case):
     fails, _ = check(fix(case["history"]))
     return fails
@@ -197,8 +240,9 @@ def shrink(case, bucket, budget):
 
 def main(tier, seed, t0):
     quick = tier == "quick"
-    col = core.run_shards(worker, [(seed * 1000 + 1100 + k, 400 if quick else 5000) for k in range(16)])
-    need = ["prefix:custom", "prefix:default", "filters>=2", "has-disabled", "has-description", "non-ascii-name"]
+    shards = [("hyp", (seed * 1000 + 1100 + k, 400 if quick else 5000)) for k in range(16)] + [("grid", (k, 8)) for k in range(8)]
+    col = core.run_shards(any_worker, shards)
+    need = ["grid", "prefix:custom", "prefix:default", "filters>=2", "has-disabled", "has-description", "non-ascii-name"]
     missing = [c for c in need if not col.classes.get(c)]
     if missing:
         raise core.HarnessError("generator classes empty: %s" % missing)
